@@ -1,12 +1,16 @@
 import HcipyVerif.Model.Proto
+import HcipyVerif.Model.GridOps
 
-/-! Line-protocol front end of the C11 model (stub: not built yet). -/
+/-! Line-protocol front end of the C11 model: an object store of grids (see Model/GridOps.lean). -/
 namespace HcipyVerif.Driver.C11
+open HcipyVerif.Grid
 
 structure St where
-  dummy : Unit := ()
+  grids : Store := []
 
-def step (st : St) : List String → St × String
-  | _ => (st, "bad-op")
+def step (st : St) (toks : List String) : St × String :=
+  match stepStore st.grids toks with
+  | some (g, out) => ({ grids := g }, out)
+  | none => (st, "bad-op")
 
 end HcipyVerif.Driver.C11
